@@ -24,8 +24,12 @@ def letter_maps(numpy):
         'large': [1e15, 1e15 + 1, 1e15 + 2, 1e15 + 3, 1e15 + 4, 1e15 + 5],
         'counts': [0, 1, 2, 3, 5, 8],
         'negint': [-7, -4, -3, -1, 0, 2],        # whole numbers around zero: half-integer queries are negative
+        'bigcount': [99999, 100000, 100001, 100002, 2500000, 10 ** 9],      # event counts of large catalogs: neighbours differ by 1
         'withinf': [float('-inf'), -2.0, -1.0, 0.5, 3.5, float('inf')],      # log-likelihoods of impossible catalogs are -inf
     }
+
+
+INTKINDS = ('int', 'counts', 'negint', 'bigcount')
 
 
 def query_value(vals, q, kind):
@@ -40,11 +44,11 @@ def query_value(vals, q, kind):
         lo, hi = vals[i - 1], vals[i]
         return -1e300 if lo == -math.inf else (1e300 if hi == math.inf else lo + (hi - lo) / 2)
     if i == 0:
-        return vals[0] - 1 if kind in ('int', 'counts', 'negint') else (math.nextafter(vals[0], -math.inf))
+        return vals[0] - 1 if kind in INTKINDS else (math.nextafter(vals[0], -math.inf))
     if i == len(vals):
-        return vals[-1] + 1 if kind in ('int', 'counts', 'negint') else (math.nextafter(vals[-1], math.inf))
+        return vals[-1] + 1 if kind in INTKINDS else (math.nextafter(vals[-1], math.inf))
     lo, hi = vals[i - 1], vals[i]
-    if kind in ('int', 'counts', 'negint'):
+    if kind in INTKINDS:
         return lo + 0.5 if hi - lo >= 1 else None
     mid = lo + (hi - lo) / 2
     if lo < mid < hi:
@@ -55,6 +59,9 @@ def query_value(vals, q, kind):
 def numerator(x, n):
     """alpha: exact recovery of k from the float k/n the library returned (None if not of that form)."""
     if x is None:
+        return None
+    import math
+    if not math.isfinite(float(x)):
         return None
     k = int(round(float(x) * n))
     if 0 <= k <= n and k / n == float(x):
@@ -84,11 +91,13 @@ def run(chk, replay=None):
             x = list(sample)
         elif container == 'nparray':
             x = numpy.array(sample)
-        elif container == 'npint' and kind in ('int', 'counts', 'negint'):
+        elif container == 'npint' and kind in INTKINDS:
             x = numpy.array(sample, dtype=numpy.int64)
         elif container in DTYPES and kind == 'negint' and 'uint' in container:
             x = numpy.array(sample, dtype=numpy.int64)        # (negative values: signed storage)
-        elif container in DTYPES and kind in ('int', 'counts', 'negint'):
+        elif container in DTYPES and kind == 'bigcount':
+            x = numpy.array(sample, dtype=(numpy.uint64 if container == 'npuint64' else (numpy.int32 if container == 'npint32' else numpy.int64)))
+        elif container in DTYPES and kind in INTKINDS:
             # event counts arrive in whatever integer / float dtype the caller's arrays have
             x = numpy.array(sample, dtype=DTYPES[container])
         else:
@@ -118,6 +127,18 @@ def run(chk, replay=None):
                     bad.append(('greater_equal_ecdf(cdf=)', q, val, repr(g2), ge[q - 1], n))
                 if isinstance(l2, Raised) or float(l2) != le[q - 1] / n:
                     bad.append(('less_equal_ecdf(cdf=)', q, val, repr(l2), le[q - 1], n))
+                if not isinstance(pre, Raised) and q % 6 == 0:
+                    # the pair ecdf() hands out belongs to the caller (levels are turned into per cent for a plot): a later
+                    # query on the sample is not affected by what the caller does with it
+                    try:
+                        pre[1][...] = pre[1] * 100.0
+                        pre[0][...] = 0
+                    except (ValueError, TypeError, IndexError):
+                        pass
+                    dd2 = guarded(stats.get_quantiles, x, val)
+                    chk.count()
+                    if isinstance(dd2, Raised) or (float(dd2[0]), float(dd2[1])) != (ge[q - 1] / n, le[q - 1] / n):
+                        bad.append(('get_quantiles after the caller edited the arrays returned by ecdf()', q, val, repr(dd2), (ge[q - 1], le[q - 1]), n))
         return bad
 
     rng = random.Random(chk.seed + 909)
@@ -146,6 +167,8 @@ def run(chk, replay=None):
         kinds = kinds + ['negint']
     if 'withinf' not in kinds:
         kinds = kinds + ['withinf']
+    if 'bigcount' not in kinds:
+        kinds = kinds + ['bigcount']
     nb = 0
     for ci, case in enumerate(cases):
         cnt, n, ge, le = case['cnt'], case['n'], case['ge'], case['le']
